@@ -1,4 +1,5 @@
 use crate::common::Ctx;
+pub mod c15;
 pub mod c07;
 pub mod c08;
 pub mod c16;
@@ -42,6 +43,8 @@ pub fn dispatch(ctx: &mut Ctx) -> bool {
         "C16" => c16::run(ctx),
         "C08" => c08::run(ctx),
         "C07" => c07::run(ctx),
+        "C15" => c15::run(ctx),
+        "C15child" => c15::run_child(ctx),
         _ => return false,
     }
     true
